@@ -607,10 +607,25 @@ func checkTreeHandedOver(r *Run, prog *Program, a *Anchors, pfx string) {
 				"Evaluate must hand the receiver's syntax tree and its own datum parameter to the dispatcher; node argument: "+describeRoot(prog, nodeArg))
 		}
 	}
-	r.Check(pfx+".tree-handover", "Evaluate:dispatch-calls", prog.pos(a.EvaluateM.Pos()), n == 1, fmt.Sprintf("Evaluate calls the dispatcher %d times (expected once)", n))
-	// every return of Evaluate is the dispatcher's pair, unchanged
+	// once on every path (two call sites in the two arms of a branch are one call each time)
 	ps := NewPathSim(prog)
-	for _, sm := range ps.Run(a.EvaluateM) {
+	sums := ps.Run(a.EvaluateM)
+	perPath := n >= 1
+	worst := n
+	for _, sm := range sums {
+		k := 0
+		for _, ev := range sm.Events() {
+			if ev.Instr != nil && ev.Callee == a.Dispatch {
+				k++
+			}
+		}
+		if k != 1 {
+			perPath, worst = false, k
+		}
+	}
+	r.Check(pfx+".tree-handover", "Evaluate:dispatch-calls", prog.pos(a.EvaluateM.Pos()), perPath, fmt.Sprintf("Evaluate calls the dispatcher %d times on some path (expected once on every path)", worst))
+	// every return of Evaluate is the dispatcher's pair, unchanged
+	for _, sm := range sums {
 		if sm.Ret == nil || len(sm.Results) != 2 {
 			r.Check(pfx+".tree-handover", "Evaluate:returns", prog.pos(a.EvaluateM.Pos()), false, "Evaluate panics or has an unexpected result shape")
 			continue
